@@ -374,7 +374,7 @@ func init() {
 	}
 	families["c01typed"] = &Family{
 		Label: "c01typed",
-		Gen: func(r *Rng, tier string, emit func(*sx.Node)) {
+		Gen: withProfile(genProfile{edgeInts: true, utf8Strings: true, unitEdges: true}, func(r *Rng, tier string, emit func(*sx.Node)) {
 			rounds := 20
 			if tier == "thorough" {
 				rounds = 200
@@ -404,7 +404,7 @@ func init() {
 					emit(schCase(nil, s, ops...))
 				}
 			}
-		},
+		}),
 		Run: runTypedCase,
 	}
 	families["c01typedobj"] = &Family{
@@ -501,7 +501,7 @@ func init() {
 	}
 	families["c01rt"] = &Family{
 		Label: "schema",
-		Gen: func(r *Rng, tier string, emit func(*sx.Node)) {
+		Gen: withProfile(genProfile{edgeInts: true, utf8Strings: true, unitEdges: true, anyDeep: true, anyDirty: true, oneofRich: true}, func(r *Rng, tier string, emit func(*sx.Node)) {
 			n := 1200
 			if tier == "thorough" {
 				n = 12000
@@ -513,6 +513,11 @@ func init() {
 				var sc scopeCtx
 				if r.Chance(70) {
 					s = g.scope(depth)
+					if r.Chance(15) {
+						// a one-of directly under the root object (members: generated objects and references into the scope)
+						root := s.List[1].List[0].List[1]
+						root.List[3].Append(propD{name: "uo", t: g.oneof(1), required: r.Bool()}.sx())
+					}
 					sc = scopeTable(s)
 				} else {
 					s = g.typ(depth)
@@ -549,7 +554,7 @@ func init() {
 				}
 				emit(schCase(nil, s, ops...))
 			}
-		},
+		}),
 		Run: runSchemaCase,
 	}
 }
